@@ -5,6 +5,7 @@ import ast
 from ..astutil import unparse, short, walk_local, dotted
 from ..cfg import cfg_of
 from ..rules import tables as T
+from ..rules import dom
 from ..engine import get_cg, get_effects
 from ..effects import exc_is_subclass
 
@@ -184,6 +185,25 @@ def run(ctx):
             res.check(on_ok and off_ok, 'R-DOM.per-element', f.fq,
                       "to_string() validates exactly when the element's own flag is on", fail_detail=f"validated when on: {on_ok}; skipped when off: {off_ok}",
                       key='R-DOM.per-element|to_string')
+    container_independent_of_flag(ctx)
     res.extra['cfg_nodes_switched_off_by_flag'] = n_guarded
     res.floor('R-DOM.guard functions', len(funcs), 6)
     res.floor('R-DOM.guard guarded statements', n_guarded, 10)
+
+
+def container_independent_of_flag(ctx):
+    """'... and nothing else': the element's container (which possible_children_names, the xml_* shortcuts and a later switch back to
+    checking rely on) is created whatever the flag is."""
+    sm, res = ctx.sm, ctx.res
+    cg = get_cg(ctx)
+    init = sm.func('XMLElement', '__init__', T.M_XMLELEMENT)
+    cct = sm.func('XMLElement', '_create_child_container_tree', T.M_XMLELEMENT)
+    reaches = dom.may_call(cg, init, 'XMLElement._create_child_container_tree', UNCHECKED)
+    g = cfg_of(cct.node)
+    stores = [n for n in g.stmt_nodes() if n.kind == 'stmt' and isinstance(n.ast, ast.Assign) and unparse(n.ast.targets[0]) == 'self._child_container_tree']
+    reach_off = g.reachable(g.entry, edge_ok=g.edge_filter_assuming(UNCHECKED))
+    flag_tests = [n for n in g.stmt_nodes() if n.kind == 'test' and 'xsd_check' in unparse(n.ast)]
+    ok = reaches and bool(stores) and all(s in reach_off for s in stores) and not flag_tests
+    res.check(ok, 'R-DOM.guard', cct.fq, "the element's container is created independently of xsd_check (the flag switches off checking, not the element's "
+              "knowledge of its possible children)", fail_detail=f"reached from __init__ with the flag off: {reaches}; tests on the flag: {[unparse(t.ast) for t in flag_tests]}",
+              key='R-DOM.guard|container-independent')
